@@ -9,7 +9,7 @@ GENERATORS = []
 LEAN_TARGETS = ['EosProofs.Props.C17']
 DRIVERS = ['drv_cache']
 RULE = ('correspondence: the real SourceManager (class-level registry reset per case) with 1-3 real JsonCacheHandlers on temp '
-        'files prepared as absent / current / stale / damaged / written by another engine version, and call-counting data '
+        'files prepared as absent / current / stale / damaged (truncated, or well-formed JSON under the current fingerprint whose body does not decode) / written by another engine version, and call-counting data '
         'handlers with version same / changed / None / int, driven through random sequences of add (incl. taken aliases, '
         'shared cache handlers, make_default) / get / remove / list (incl. unknown aliases); after every call the outcome '
         '(rebuilt or not = data getters invoked, exception class), list(), default, and per handler the reported and the '
@@ -43,7 +43,7 @@ LEVEL_TEXT = ('Lean theorems over a state-machine model of SourceManager (regist
 LEVEL_NOTE = 'Trusted: Lean kernel + 3 standard axioms, the harness; the tie to manager.py is the correspondence (no regenerated table).'
 TECHNIQUE = 'Lean 4 proof (invariants and refinement over operation histories) + differential correspondence'
 
-STATES = ['absent', 'current', 'stale', 'damaged', 'other-engine']
+STATES = ['absent', 'current', 'stale', 'damaged', 'damaged-json', 'other-engine']
 VERSIONS = ['v1', 'v2', None, 20180101]
 
 
@@ -66,8 +66,22 @@ def _prepare(path, state):
     if state == 'absent':
         return None, 0
     version, fp = {'current': ('v1', _fmt('v1')), 'stale': ('v0', _fmt('v0')), 'damaged': ('v1', _fmt('v1')),
-                   'other-engine': ('v1', 'v1_0.0.0.dev9')}[state]
+                   'damaged-json': ('v1', _fmt('v1')), 'other-engine': ('v1', 'v1_0.0.0.dev9')}[state]
     G.JsonCacheHandler(path).update_cache(EveObjBuilder.run(G.DataHandler(version, _salt(version))), fp)
+    if state == 'damaged-json':
+        # still bz2 + JSON and carrying the current fingerprint, but the body does not decode
+        import bz2
+        with bz2.BZ2File(path, 'r') as f:
+            tree = json.loads(f.read().decode('utf-8'))
+        how = sum(map(ord, path)) % 3
+        if how == 0:
+            tree['effects'] = []                 # types point at a missing effect
+        elif how == 1:
+            del tree['attrs']
+        else:
+            tree['types'][0] = tree['types'][0][:3]
+        G.write_payload(path, tree)
+        return None, 0
     if state == 'damaged':
         data = open(path, 'rb').read()
         with open(path, 'wb') as f:
@@ -76,13 +90,30 @@ def _prepare(path, state):
     return fp, _salt(version)
 
 
+_REF = {}
+
+
+def _ref_served(salt):
+    """What a cache freshly built from the data set `salt` serves (computed once per run)."""
+    if salt not in _REF:
+        from eos.eve_obj_builder import EveObjBuilder
+        with G.TmpDir() as tmp:
+            h = G.JsonCacheHandler('%s/ref.json.bz2' % tmp)
+            h.update_cache(EveObjBuilder.run(G.DataHandler('ref', salt)), 'ref')
+            _REF[salt] = G.served(h)
+    return _REF[salt]
+
+
 def _content_id(handler):
-    """Which data the served objects derive from (0 = serves nothing)."""
-    try:
-        v = handler.get_type(1).attrs[100]
-    except Exception:
+    """Which data set *everything* the handler serves derives from (types, attributes, effects, buff templates over all
+    ids any data set uses); 0 = serves nothing, -1 = a mixture / something no single data set produces."""
+    sv = G.served(handler)
+    if all(isinstance(v, str) for v in sv.values()):
         return 0
-    return int(v - 50.0)
+    for salt in (1, 2, 3, 4, 5):
+        if sv == _ref_served(salt):
+            return salt
+    return -1
 
 
 def _reset():
